@@ -103,6 +103,12 @@ class Ctx:
                 resid = poly.poly_to_node(num)
         except (poly.TooBig, ZeroDivisionError, RecursionError):
             resid = None
+        if self._ground_root_zero(d):
+            return self._rec(name, "unsat", time.time() - t0, "eq", how="normalisation (closed square root removed by squaring; sign by interval arithmetic)", key=key)
+        wit = self._witness(d, pc, assume)
+        if wit is not None:
+            # the exact normal form is not zero: a model is found by evaluating the difference at simple points (50 digits); replayed like any model
+            return self._finish(name, "sat", wit, time.time() - t0, "eq", replay, key, d, detail="counterexample by exact evaluation of the non-zero normal form")
         tr = self.engine.tr
         cs = self._constraints(pc, assume)
         d2 = self._eliminate_roots(d, cs, tr)
@@ -134,6 +140,90 @@ class Ctx:
                 self.note(f"{name}: general query unknown; decided with parameters pinned to {slices} (all other variables symbolic)")
                 return self._rec(name, "unsat", time.time() - t0, "eq", how="solver/normalisation at pinned parameter slices (general query unknown)", key=key)
         return self._finish(name, verdict, model, time.time() - t0, "eq", replay, key, d)
+
+    def _witness(self, d, pc, assume):
+        """cheap model search for a difference whose normal form is known not to vanish identically: one-hot / all-ones / small rational points that
+        satisfy every assumption and path constraint, evaluated with 50 digits.  Only for terms over variables and closed constants (no uf, no definitional axioms)."""
+        import mpmath, itertools
+        e = self.engine
+        try:
+            if e.def_axioms or any(m.op == "uf" for m in dag.walk([d])):
+                return None
+            vs = dag.free_vars([d])
+            if not vs or len(vs) > 40:
+                return None
+            fs = list(e.assumptions) + list(pc) + [x.f if isinstance(x, SymBool) else x for x in assume]
+            names = set(v.args[0] for v in vs)
+            for f in fs:
+                for leaf in self._formula_nodes(f):
+                    for v in dag.free_vars([leaf]):
+                        names.add(v.args[0])
+            if len(names) > 40:
+                return None
+            names = sorted(names)
+            cands = [{n: 0 for n in names}, {n: 1 for n in names}]
+            for n in names:
+                for val in (1, -1, Fraction(1, 2), 2):
+                    c = {m: 0 for m in names}
+                    c[n] = val
+                    cands.append(c)
+            for k in range(4):
+                cands.append({n: Fraction((7 * i + 3 * k) % 11 - 5, 1 + (i + k) % 3) for i, n in enumerate(names)})
+            for c in cands:
+                env = {n: mpmath.mpf(v.numerator) / v.denominator if isinstance(v, Fraction) else mpmath.mpf(v) for n, v in c.items()}
+                try:
+                    if not all(sym.eval_formula(f, env) for f in fs):
+                        continue
+                    with mpmath.workdps(90):
+                        val = dag.evalf(d, env, mpmath.mp)
+                        if not (abs(val) > mpmath.mpf(10) ** -30) or not mpmath.isfinite(val):
+                            continue
+                except Exception:
+                    continue
+                return {n: (Fraction(v) if not isinstance(v, Fraction) else v) for n, v in c.items()}
+        except Exception:
+            return None
+        return None
+
+    @staticmethod
+    def _formula_nodes(f):
+        if f[0] == "cmp":
+            return [f[2], f[3]]
+        if f[0] in ("and", "or", "not"):
+            out = []
+            for g in f[1:]:
+                out += Ctx._formula_nodes(g)
+            return out
+        return []
+
+    @staticmethod
+    def _ground_root_zero(d):
+        """closed term  alpha*rho + beta  with one square-root atom rho = sqrt(r) occurring linearly:  it is zero iff  -beta/alpha >= 0  (decided by
+        certified interval arithmetic) and  beta**2 == alpha**2 * r  (exact normalisation incl. cyclotomic arithmetic).  True only when both are shown."""
+        try:
+            if dag.has_free(d):
+                return False
+            roots = [n for n in dag.walk([d]) if n.op == "root"]
+            if len(roots) != 1 or roots[0].args[1] != 2:
+                return False
+            rho = roots[0]
+            if any(m.op == "root" for m in dag.walk([rho.args[0]])):
+                return False
+            d0 = dag.subst(d, {rho: dag.ZERO})
+            d1 = dag.subst(d, {rho: dag.ONE})
+            d2 = dag.subst(d, {rho: dag.const(Fraction(2))})
+            alpha = dag.sub(d1, d0)
+            if not poly.is_zero(dag.sub(dag.sub(d2, d0), dag.scale(Fraction(2), alpha))):
+                return False
+            sa = sym.ground_sign(alpha)
+            if sa in (None, 0):
+                return False
+            sb = sym.ground_sign(d0)
+            if sb is None or (sb != 0 and sb == sa):
+                return False        # -beta/alpha < 0: cannot be a square root
+            return poly.is_zero(dag.sub(dag.mul(d0, d0), dag.mul(dag.mul(alpha, alpha), rho.args[0])))
+        except Exception:
+            return False
 
     def _eliminate_roots(self, d, cs, tr):
         """m-th roots whose radicand is A * B**m: replace by root_m(A) * |B| when the solver decides the sign of B under the constraints."""
